@@ -159,6 +159,21 @@ func TestC05(t *testing.T) {
 			Violation(rt, "C05/assertvalid-stuck-or-panic", "AssertValid: stuck=%v panic=%s\nfaults %v", s2.Stuck, s2.Panic, faultStrings(applied))
 			return
 		}
+		if differs {
+			// plain reporting mode, one context for the damaged directory and then for the pristine
+			// signed one: the second verdict must not remember the first
+			pv := &pwr.ValidatorContext{Consumer: Quiet()}
+			e1 := pv.Validate(context.Background(), target, si)
+			e2 := pv.Validate(context.Background(), filepath.Join(dir, "signed"), si)
+			if e1 == nil && e2 == nil && pv.WoundsConsumer.HasWounds() {
+				Violation(rt, "C05/context-reuse", "a ValidatorContext that validated a damaged directory and then the pristine build says HasWounds() for the pristine build (TotalCorrupted %d)", pv.WoundsConsumer.TotalCorrupted())
+				return
+			}
+			if e2 != nil {
+				Violation(rt, "C05/context-reuse", "second validation (pristine build) with a reused context failed: %v", e2)
+				return
+			}
+		}
 		var wounds []*pwr.Wound
 		if b, err := os.ReadFile(woundsPath); err == nil {
 			_, ws, derr := DecodeWounds(b)
